@@ -56,7 +56,7 @@ pub fn run(run: &RunInfo) -> Summary {
             }
         };
         let st = dbx::explore(if noisy { 1 } else { 0 }, 200_000_000, |ctx| {
-            let o = history(ctx, &p, first, acc);
+            let o = history(ctx, &p, Some(first), acc);
             acc.count("executions", 1);
             if !o.c19.is_empty() {
                 let choices = ctx.choices();
@@ -72,7 +72,32 @@ pub fn run(run: &RunInfo) -> Summary {
             acc.count("capped", 1);
         }
     });
+    if run.replay_only.is_none() || run.replay_only.as_ref().map(|r| r["key"].as_str().unwrap_or("").contains("/bfs/")).unwrap_or(false) {
+        for max in 1..=2usize {
+            for dangling in [None, Some(7u32)] {
+                let p = HistParams {
+                    max,
+                    depth: 0,
+                    ops: all_ops.clone(),
+                    dangling,
+                    reservation_menu: vec![Outcome::Ok, Outcome::Abort(0x6c)],
+                    commit_menu: vec![Outcome::Ok, Outcome::NoStatus, Outcome::Abort(0x6c)],
+                    cancel_menu: vec![Outcome::Ok, Outcome::Abort(0xb4)],
+                    eod_menu: vec![Eod::Completion, Eod::StatusCompletion, Eod::Abort(0xa0), Eod::Abort(0x6c), Eod::Abort(0xff)],
+                    noise: false,
+                };
+                let (levels, states, transitions, fix) = bfs(&p, 12, &format!("c19/max={max}/dangling={dangling:?}"), |o| &o.c19, &mut acc);
+                acc.count("bfs_states", states as u64);
+                acc.count("bfs_state_transitions", transitions);
+                acc.max("bfs_levels", levels as u64);
+                if fix {
+                    acc.count("w_bfs_fixpoint", 1);
+                }
+            }
+        }
+    }
     for (c, w) in [
+        ("w_bfs_fixpoint", "the state-deduplicated search reached its fixed point"),
         ("w_idle_cleanups", "a completed commit/cancel left no transaction open"),
         ("w_dangling_reversed", "the terminal reported a dangling pre-authorisation"),
         ("w_eod_refused", "end-of-day was refused with another code than 'receiver not ready'"),
@@ -92,9 +117,10 @@ pub fn run(run: &RunInfo) -> Summary {
         transitions: acc.get("transitions"),
         traces_validated: execs,
         distinct_nontrivial: acc.get("w_idle_cleanups") + acc.get("w_closed_while_others_open"),
-        rule: format!("real Feig client against the simulated terminal: transactions_max_num 1..=2 x terminal ledger {{no dangling pre-authorisation, one}} x all histories of depth {depth} over begin/commit/cancel x tokens {{A,B}} + read_card, terminal outcomes chosen lazily (reservation: success/abort; commit: completion with status, completion without status, abort; cancel: completion/abort; end-of-day: completion, status+completion, abort A0, 6C, FF); a second pass at depth - 1 with every single deviation of the reply shape of any exchange (no / two intermediate statuses, a print line, an extra status information); plus all 256 end-of-day abort codes on the histories begin;commit and begin;cancel with and without a dangling pre-authorisation. Temporal oracle on the terminal's request log. distinct_nontrivial = steps at which the clean-up rule or the no-end-of-day rule applied"),
+        rule: format!("real Feig client against the simulated terminal: transactions_max_num 1..=2 x terminal ledger {{no dangling pre-authorisation, one}} x all histories of depth {depth} over begin/commit/cancel x tokens {{A,B}} + read_card, terminal outcomes chosen lazily (reservation: success/abort; commit: completion with status, completion without status, abort; cancel: completion/abort; end-of-day: completion, status+completion, abort A0, 6C, FF); a second pass at depth - 1 with every single deviation of the reply shape of any exchange (no / two intermediate statuses, a print line, an extra status information); a state-deduplicated breadth-first search from every reachable state until no new state appears; plus all 256 end-of-day abort codes on the histories begin;commit and begin;cancel with and without a dangling pre-authorisation. Temporal oracle on the terminal's request log. distinct_nontrivial = steps at which the clean-up rule or the no-end-of-day rule applied"),
         exhaustive: true,
         required_witnesses: vec![
+            "the state-deduplicated search reached its fixed point".into(),
             "a completed commit/cancel left no transaction open".into(),
             "the terminal reported a dangling pre-authorisation".into(),
             "end-of-day was refused with another code than 'receiver not ready'".into(),
